@@ -418,17 +418,14 @@ func TestPairingNative377(t *testing.T) {
 }
 
 // pairTable is the deterministic minimum every run covers on a curve: both
-// membership verdicts for G1 and G2, a true and a false two-pair equation and a
-// true three-pair equation.
+// membership verdicts for G1 and G2 (pairing equations: see the sweep over the number of pairs).
 func pairTable(curve string) []PairCase {
 	return []PairCase{
 		{Curve: curve, Kind: "g1", Seed: "1234567", Member: true},
 		{Curve: curve, Kind: "g1", Seed: "1234568", Member: false},
 		{Curve: curve, Kind: "g2", Seed: "89abcdef", Member: true},
 		{Curve: curve, Kind: "g2", Seed: "89abcdf1", Member: false},
-		{Curve: curve, Kind: "check", A: []string{"5"}, B: []string{"3"}, Delta: "0"},
-		{Curve: curve, Kind: "check", A: []string{"5"}, B: []string{"3"}, Delta: "1"},
-		{Curve: curve, Kind: "check", A: []string{"5", "7"}, B: []string{"3", "2"}, Delta: "0"},
+		// true / false equations for every number of pairs: pairsweep_test.go
 	}
 }
 
